@@ -205,16 +205,44 @@ def twin_check(ctx, label, key_a, key_b, spec, outputs, requires, node_terms=Non
     for k, name, mode in outputs:
         idx = spec.r if mode == "branch" else spec.q
         goals[k] = pair_goal(pa, pb, k, idx, "set" if mode == "set" else "val")
-    quick = {}
     from . import val as _V
+    # lemma chaining: an output equality that has been proved is a valid formula under req + facts and is added
+    # to the assumptions of the ones still open (e.g. p_abs_mean -> normfactor_mean -> v_gas_mean).  Pass 1 tries
+    # every output with a small deterministic budget, repeatedly, until nothing new is proved; the remaining ones
+    # get the full budget with all lemmas found.
+    quick, pool = {}, []
+
+    def try_quick(assum, goal):
+        r0 = solve.prove(assum, goal, timeout_ms=2000, use_cvc5=False, rlimit=2000000, quick=True)
+        if r0["verdict"] == "proved":
+            return True
+        try:
+            rel = solve.relevant(assum, goal)
+        except Exception:  # noqa
+            rel = assum
+        return solve.prove_nl_as_uf(rel, goal, rlimit=2000000) is not None
+    base = req + facts + _V.trans_axioms()
+    # round 0: without lemmas (an unhelpful lemma -- e.g. a product equality -- can mislead the nonlinear solver)
     for k, name, mode in outputs:
-        r0 = solve.prove(req + facts + _V.trans_axioms(), goals[k], timeout_ms=2000, use_cvc5=False,
-                         rlimit=2000000, quick=True)
-        quick[k] = r0["verdict"] == "proved"
+        if try_quick(base, goals[k]):
+            quick[k] = True
+            quick[("lemmas", k)] = []
+            pool.append(goals[k])
+    progress = True
+    while progress:
+        progress = False
+        for k, name, mode in outputs:
+            if quick.get(k):
+                continue
+            if try_quick(base + pool, goals[k]):
+                quick[k] = True
+                quick[("lemmas", k)] = list(pool)
+                pool.append(goals[k])
+                progress = True
     for k, name, mode in outputs:
         idx = spec.r if mode == "branch" else spec.q
         goal = goals[k]
-        lemmas = [] if quick[k] else [goals[j] for j in goals if j != k and quick[j]]
+        lemmas = quick.get(("lemmas", k)) if quick.get(k) else list(pool)
         assum = req + facts + lemmas
 
         def replay(m, _assum=assum, _goal=goal, _name=name, _k=k, _mode=mode):
